@@ -292,6 +292,52 @@ struct Aff {
         record(name(), nt, h.h, [&] { return c.to_json(); });
         return std::nullopt;
     }
+    // structured transforms: pure scalings by powers of two, pure translations by (tiny) powers of two, identity plus a
+    // tiny perturbation - the shapes the examples compose (scaling * translation), including factors that are within
+    // machine epsilon of the identity without being the identity
+    static rc::Gen<std::vector<uint64_t>> gen_structured()
+    {
+        const int S = sizeof(R) == 4 ? 20 : 40, K = sizeof(R) == 4 ? 40 : 60;
+        return rc::gen::exec([S, K] {
+            std::vector<R> m(N * (N + 1), R(0));
+            unsigned kind = *in_range<unsigned>(0, 3);
+            for (size_t i = 0; i < N; ++i) {
+                R d = 1, t = 0;
+                if (kind == 0) {
+                    d = std::ldexp(R(1), *in_range<int>(-S, S)) * ((*in_range<unsigned>(0, 3) == 0) ? R(-1) : R(1));
+                } else if (kind == 1) {
+                    t = std::ldexp(R(1), -*in_range<int>(0, K)) * ((*in_range<unsigned>(0, 1)) ? R(-1) : R(1));
+                } else if (kind == 2) {
+                    // within epsilon of the identity
+                    t = (*in_range<unsigned>(0, 1)) ? std::ldexp(R(1), -*in_range<int>(sizeof(R) == 4 ? 24 : 53, K)) : R(0);
+                    d = 1;
+                } else {
+                    d = R(*in_range<int>(1, 4));
+                    t = R(*in_range<int>(-4, 4));
+                }
+                m[i * (N + 1) + i] = d;
+                m[i * (N + 1) + N] = t;
+            }
+            std::vector<uint64_t> w;
+            for (R v : m) {
+                w.push_back(to_bits<R>(v));
+            }
+            return w;
+        });
+    }
+    static rc::Gen<Case> gen_structured_case()
+    {
+        return rc::gen::map(
+            rc::gen::pair(rc::gen::container<std::vector<std::vector<uint64_t>>>(3, gen_structured()), rc::gen::container<std::vector<uint64_t>>(N, rc::gen::map(in_range<int>(-4, 4), [](int v) { return to_bits<R>(R(v)); }))),
+            [](std::pair<std::vector<std::vector<uint64_t>>, std::vector<uint64_t>> q) {
+                Case c;
+                c.exact = false;
+                c.mats = q.first;
+                c.x = q.second;
+                return c;
+            }
+        );
+    }
     static rc::Gen<Case> gen()
     {
         return rc::gen::mapcat(rc::gen::pair(rc::gen::arbitrary<bool>(), in_range<unsigned>(1, 4)), [](std::pair<bool, unsigned> p) {
@@ -329,6 +375,7 @@ struct Aff {
             note_exhaustive(name() + ": all " + std::to_string(n) + " (A1,A2,x) with entries in -3..3");
         }
         rc_campaign<Case>(name(), tier(4000, 300000), 100, gen(), run);
+        rc_campaign<Case>(name(), tier(2500, 150000), 100, gen_structured_case(), run);
     }
     static void reg()
     {
